@@ -1321,6 +1321,22 @@ PURE_PREDICATES = {'has_bias', 'get_world_size', 'get_rank', 'isinstance', 'call
                    'set', 'frozenset', 'len', 'sorted', 'tuple'}      # the last five: fresh values computed from frozen arguments
 
 
+_CONTENT_MUTABLE: set[str] = set()      # fields whose *contents* change somewhere (x.f.append(..), x.f[k] = v, del x.f[k], x.f += ..)
+_MUTATORS = {'append', 'extend', 'insert', 'pop', 'popitem', 'remove', 'clear', 'sort', 'reverse', 'update', 'setdefault', 'add', 'discard', 'appendleft'}
+
+
+def set_content_mutable(trees: list[ast.Module]) -> None:
+    _CONTENT_MUTABLE.clear()
+    for t in trees:
+        for n in ast.walk(t):
+            if isinstance(n, ast.Call) and isinstance(n.func, ast.Attribute) and n.func.attr in _MUTATORS and isinstance(n.func.value, ast.Attribute):
+                _CONTENT_MUTABLE.add(n.func.value.attr)
+            elif isinstance(n, ast.Subscript) and isinstance(n.ctx, (ast.Store, ast.Del)) and isinstance(n.value, ast.Attribute):
+                _CONTENT_MUTABLE.add(n.value.attr)
+            elif isinstance(n, ast.AugAssign) and isinstance(n.target, ast.Attribute):
+                _CONTENT_MUTABLE.add(n.target.attr)
+
+
 def _frozen_pure(e: ast.expr, mutable: set[str], in_init: bool) -> bool:
     """An expression whose value cannot change while the method runs: constants, write-once fields reached from self,
     tests and conditional expressions over those, and calls of the package's pure predicates / size queries on them."""
@@ -1350,6 +1366,11 @@ def _frozen_pure(e: ast.expr, mutable: set[str], in_init: bool) -> bool:
             return False
         if isinstance(f, ast.Attribute) and not _frozen_pure(f.value, mutable, in_init):
             return False
+        if nm in ('set', 'frozenset', 'len', 'sorted', 'tuple'):
+            # a value computed from a container: the container's contents must not change anywhere in the package
+            for a in e.args:
+                if any(isinstance(x, ast.Attribute) and x.attr in _CONTENT_MUTABLE for x in ast.walk(a)):
+                    return False
         return all(_frozen_pure(a, mutable, in_init) for a in e.args)
     return False
 
@@ -1488,6 +1509,9 @@ def _local_const_tables(fn: ast.AST) -> dict[str, ast.expr]:
                 continue
             roots = {y.id for x in ast.walk(v) for y in [x] if isinstance(y, ast.Name)}
             if any(stores.get(r, 0) > 1 for r in roots):
+                continue
+            # an attribute read in a row is evaluated when the table is built: it must denote the same thing later
+            if any(isinstance(x, ast.Attribute) and ('*' in _MUTABLE or x.attr in _MUTABLE) for x in ast.walk(v)):
                 continue
             uses = [x for x in ast.walk(fn) if isinstance(x, ast.Name) and x.id == nm and isinstance(x.ctx, ast.Load)]
             iters = [x for x in ast.walk(fn) if isinstance(x, ast.For) and isinstance(x.iter, ast.Name) and x.iter.id == nm]
